@@ -31,6 +31,11 @@ _texts = st.one_of(
 _safe_texts = _texts.filter(lambda s: "\x00" not in s and not any(0xD800 <= ord(c) <= 0xDFFF for c in s))
 
 
+def weighted(options: list[Any]) -> st.SearchStrategy[Any]:
+    """Pick one of *options* uniformly by position (repeats weight an option; ``st.one_of`` would de-duplicate them)."""
+    return st.sampled_from(list(range(len(options)))).flatmap(lambda i: options[i])
+
+
 def _values(t: str) -> st.SearchStrategy[Any]:
     if t == "dict_utf8":  # additive (C29): dictionary-encoded columns share the value domains of their value type
         t = "utf8"
@@ -145,7 +150,7 @@ def _method(
         init_ops.append(st.just({"op": "not_a_stream"}))
         if m["header"] is not None:
             init_ops.append(st.just({"op": "header_none"}))
-    m["init"] = {"logs": draw(_logs(2, dense=dense_logs)), "action": draw(st.one_of(*init_ops))}
+    m["init"] = {"logs": draw(_logs(2, dense=dense_logs)), "action": draw(weighted(init_ops))}
     emit = st.builds(
         lambda rows, meta, fin: {"op": "emit", "rows": rows, "meta": meta, **({"finish": True} if fin else {})},
         _rows(m["out_cols"]),
@@ -157,7 +162,7 @@ def _method(
         if faults:
             step_ops.append(st.just({"op": "nothing"}))
         m["steps"] = draw(
-            st.lists(st.fixed_dictionaries({"logs": _logs(2, dense=dense_logs), "action": st.one_of(*step_ops)}), min_size=min_steps, max_size=6)
+            st.lists(st.fixed_dictionaries({"logs": _logs(2, dense=dense_logs), "action": weighted(step_ops)}), min_size=min_steps, max_size=6)
         )
     else:
         m["in_cols"] = draw(_cols(allow_empty=False))
@@ -165,7 +170,7 @@ def _method(
         if faults:
             resp_ops += [st.just({"op": "finish"}), st.just({"op": "nothing"})]
         m["responses"] = draw(
-            st.lists(st.fixed_dictionaries({"logs": _logs(2, dense=dense_logs), "action": st.one_of(*resp_ops)}), min_size=min_steps, max_size=5)
+            st.lists(st.fixed_dictionaries({"logs": _logs(2, dense=dense_logs), "action": weighted(resp_ops)}), min_size=min_steps, max_size=5)
         )
     return m
 
